@@ -564,33 +564,31 @@ def tr_encoder(fn: ast.FunctionDef) -> dict:
             j += 1
         elif isinstance(s, ast.If):
             src = ast.unparse(s)
-            m_date = ("if field.raw_value is not None:\n    field_value = field.raw_value\nelse:\n"
-                      "    assert isinstance(field.value, date)\n    field_value = encode_date(field.value)")
-            if src == m_date:
-                kind = "EDate"
+            m_date = ("if field.raw_value is not None:\n    days = field.raw_value\nelse:\n"
+                      "    assert field.value is None or isinstance(field.value, date)\n"
+                      "    days = None if field.value is None else encode_date(field.value)")
+            m_time = re.compile(r"if field\.raw_value is not None:\n    assert isinstance\(field\.raw_value, \(int, float\)\)\n"
+                                r"    seconds = field\.raw_value\nelse:\n"
+                                r"    assert field\.value is None or isinstance\(field\.value, time\)\n"
+                                r"    seconds = None if field\.value is None else encode_time\(field\.value, (\d+)\)")
+            nxt = body[j + 1]
+            c = nxt.value if isinstance(nxt, ast.Assign) and len(nxt.targets) == 1 and is_name(nxt.targets[0], "field_value") else None
+            cn = call_of(c, "encode_number", 4) if c is not None else None
+            if cn is None:
+                raise Refuse(nxt, "field_value = encode_number(days|seconds, L, S, R) expected")
+            ln, sg, rs = lit_int(cn.args[1]), lit_bool(cn.args[2]), lit_num(cn.args[3])
+            mt = m_time.fullmatch(src)
+            if src == m_date and is_name(cn.args[0], "days"):
+                kind = f"(EDate {cz(ln)} {cb(sg)} {cnum(rs)})"
+            elif mt and is_name(cn.args[0], "seconds"):
+                if int(mt.group(1)) != ln:
+                    raise Refuse(s, "encode_time bit length differs from encode_number bit length")
+                kind = f"(ETime {cz(ln)} {cb(sg)} {cnum(rs)})"
             else:
-                if not (ast.unparse(s.test) == "field.raw_value is not None" and len(s.body) == 2 and len(s.orelse) == 2):
-                    raise Refuse(s, "time/duration encode block expected")
-                if ast.unparse(s.body[0]) != "assert isinstance(field.raw_value, (int, float))":
-                    raise Refuse(s.body[0], "assert isinstance(field.raw_value, (int, float)) expected")
-                b1 = s.body[1]
-                c = b1.value if isinstance(b1, ast.Assign) and is_name(b1.targets[0], "field_value") else None
-                ci = call_of(c, "int", 1) if c is not None else None
-                if not (ci is not None and isinstance(ci.args[0], ast.BinOp) and isinstance(ci.args[0].op, ast.Div)
-                        and _is_field_attr(ci.args[0].left, "raw_value")):
-                    raise Refuse(b1, "field_value = int(field.raw_value / R) expected")
-                res = lit_num(ci.args[0].right)
-                if ast.unparse(s.orelse[0]) != "assert field.value is None or isinstance(field.value, time)":
-                    raise Refuse(s.orelse[0], "assert on time value expected")
-                e1 = s.orelse[1]
-                c = e1.value if isinstance(e1, ast.Assign) and is_name(e1.targets[0], "field_value") else None
-                ce = call_of(c, "encode_time", 2) if c is not None else None
-                if ce is None or not _is_field_attr(ce.args[0], "value"):
-                    raise Refuse(e1, "field_value = encode_time(field.value, L) expected")
-                kind = f"(ETime {cnum(res)} {cz(lit_int(ce.args[1]))})"
-            j += 1
+                raise Refuse(s, "date / time / duration encode block expected")
+            j += 2
         elif isinstance(s, ast.Raise):
-            steps.append("ERaise")
+            steps.append(f"(ERaiseAfter {cstr_z(fid)})")
             if not isinstance(body[-1], ast.Return):
                 raise Refuse(s, "function must end in return")
             length = _enc_return(body[-1])
@@ -678,25 +676,32 @@ def translate(path: str) -> dict:
 
     res = {"dec": [], "disp": [], "fast": [], "enc": [], "lookups": {}, "bitlookups": {}, "indirect": {},
            "enc_lookups": {}, "shadowed": []}
+    res["refused"] = []
     for name in order:
         fn = bound[name]
-        if name.startswith("is_fast_pgn_"):
-            res["fast"].append((int(name[len("is_fast_pgn_"):]), tr_fast(fn)))
-        elif name.startswith("decode_pgn_"):
-            key = fname_of(name, "decode_pgn_")
-            if [a.arg for a in fn.args.args] == ["data_raw"]:
-                d = tr_dispatcher(fn, bound)
-                res["disp"].append((key, d))
+        cat = ("fast" if name.startswith("is_fast_pgn_") else
+               "enc" if name.startswith("encode_pgn_") else
+               "disp" if name.startswith("decode_pgn_") and [a.arg for a in fn.args.args] == ["data_raw"] else
+               "dec" if name.startswith("decode_pgn_") else "other")
+        try:
+            if cat == "fast":
+                res["fast"].append((int(name[len("is_fast_pgn_"):]), tr_fast(fn)))
+            elif cat == "disp":
+                res["disp"].append((fname_of(name, "decode_pgn_"), tr_dispatcher(fn, bound)))
+            elif cat == "dec":
+                res["dec"].append((fname_of(name, "decode_pgn_"), tr_decoder(fn)))
+            elif cat == "enc":
+                res["enc"].append((fname_of(name, "encode_pgn_"), tr_encoder(fn)))
+            elif name.startswith("lookup_encode_"):
+                check_lookup_encode_fn(fn, name[len("lookup_encode_"):])
+            elif name.startswith("lookup_field_type_"):
+                pass   # only reachable from KEY_VALUE fields, which the database does not contain
             else:
-                res["dec"].append((key, tr_decoder(fn)))
-        elif name.startswith("encode_pgn_"):
-            res["enc"].append((fname_of(name, "encode_pgn_"), tr_encoder(fn)))
-        elif name.startswith("lookup_encode_"):
-            check_lookup_encode_fn(fn, name[len("lookup_encode_"):])
-        elif name.startswith("lookup_field_type_"):
-            pass   # only reachable from KEY_VALUE fields, which the database does not contain
-        else:
-            raise Refuse(fn, "unexpected function")
+                raise Refuse(fn, "unexpected function")
+        except Refuse as e:
+            # fail closed per function: a refused function is absent from its table, so the obligation
+            # of its database definition cannot be discharged
+            res["refused"].append((cat, name, str(e)))
     for name, v in assigns.items():
         if name == "master_dict":
             res["lookups"] = tr_dict(v, lit_str, lambda d: tr_dict(d, lit_int, lit_str))
@@ -784,7 +789,8 @@ def emit(path: str, outdir: str) -> dict:
             f"({cstr_z(t)}, [" + "; ".join(f"({cstr_z(k)}, {cz(v)})" for k, v in tab.items()) + "])"
             for t, tab in r["enc_lookups"].items()))
         fh.write("].\n")
-    return {"decoders": len(r["dec"]), "encoders": len(r["enc"]), "dispatchers": len(r["disp"]),
+    return {"refused": r["refused"][:40], "n_refused": len(r["refused"]),
+            "decoders": len(r["dec"]), "encoders": len(r["enc"]), "dispatchers": len(r["disp"]),
             "fast": len(r["fast"]), "lookups": len(r["lookups"]),
             "modules": mods_dec + mods_enc + ["GenCode", "GenDisp", "GenLookups"]}
 
